@@ -67,7 +67,7 @@ struct ElementInput {
 };
 
 enum Status { OK = 0, DROP_PREDICATE, DROP_PREDICATE_SUM, DROP_INVERTED, DROP_AMBIGUOUS_FIT, DROP_BEND_BUDGET, DROP_SHORT_END, NSTATUS };
-static const char* const STATUS_NAME[NSTATUS] = {"ok", "degenerate:corner-predicate", "degenerate:two-corners-on-one-segment", "degenerate:centre-line-inverted",
+static const char* const STATUS_NAME[NSTATUS] = {"ok", "degenerate:corner-predicate", "degenerate:two-corners-or-corner-and-bend-on-one-segment", "degenerate:centre-line-inverted",
                                                  "ambiguous:bend-fit-at-threshold", "ambiguous:bend-blocked-by-previous-bend", "degenerate:negative-extension-longer-than-first-piece"};
 
 struct Corner {
@@ -245,6 +245,16 @@ inline Oracle build(const ElementInput& in) {
             c.s_lo = std::min(c.hw, alt_s); c.s_hi = std::max(c.hw, alt_s);
             c.e_lo = std::min(c.hw, alt_e); c.e_hi = std::max(c.hw, alt_e);
             c.hlo = std::min(c.s_lo, c.e_lo); c.hhi = std::max(c.s_hi, c.e_hi);
+        }
+    // a fitted bend next to an unbent corner: the corner's inner side must not run into the arc
+    if (!in.raw)
+        for (int k = 0; k + 1 < n; k++) {
+            bool cs_c = k >= 1, ce_c = k + 1 <= n - 2;
+            bool bs = cs_c && o.corner[k].bend, be = ce_c && o.corner[k + 1].bend;
+            if (bs == be) continue;  // two bends: the fit rule; no bend: checked above
+            double cs = cs_c ? (bs ? o.corner[k].T : in.hw[k] * tan(fabs(o.corner[k].phi) / 2)) : 0;
+            double ce = ce_c ? (be ? o.corner[k + 1].T : in.hw[k + 1] * tan(fabs(o.corner[k + 1].phi) / 2)) : 0;
+            if (cs + ce > o.L[k] - 0.5 + 1e-12) { o.status = DROP_PREDICATE_SUM; return o; }
         }
     // ---- nodes of the straight pieces
     struct Node { V p; double lo, hi; };
@@ -441,7 +451,7 @@ inline Cls classify(const Oracle& o, V q, double g, int nends, int detail_v = -1
     unsigned mc = 0, nearE = 0, nearJ = 0;
     for (const Region& r : o.regions) {
         // pre-filter: farther than g from the bounding box => no contribution
-        if (q.x < r.bx0 - g || q.x > r.bx1 + g || q.y < r.by0 - g || q.y > r.by1 + g) continue;
+        if (!det && (q.x < r.bx0 - g || q.x > r.bx1 + g || q.y < r.by0 - g || q.y > r.by1 + g)) continue;
         bool m = false;
         double ex = 0;  // lower bound of the distance to the upper extent
         switch (r.kind) {
